@@ -425,6 +425,8 @@ def ga_builtin(it, obj, name, args, kw):
         d = args[0]
         if not isinstance(d, DF):
             raise Undecided("as_dataframe of non-table")
+        if kw.get("reset_index", args[1] if len(args) > 1 else False) is True:
+            d = df_method(it, d, "reset_index", [], {"drop": True})
         return GA(obj.cls, d, d.n, dict(obj.meta))
     if name == "as_columns":
         n = None
@@ -449,6 +451,9 @@ def ga_builtin(it, obj, name, args, kw):
         for k, v in kw.items():
             if isinstance(v, Vec) and v.fresh and d.index != "range":
                 raise Raised("IndexMisalignment", f"add_columns({k}=<Series with a fresh 0..n-1 index>) on a table whose index is not known to be 0..n-1: "
+                             "DataFrame.assign aligns by label, so values land on the wrong rows / become NaN")
+            if isinstance(v, Vec) and isinstance(v.aligned, str) and d.index == "range" and not v.fresh:
+                raise Raised("IndexMisalignment", f"add_columns({k}=<Series carrying another table's row labels>) on a table renumbered 0..n-1: "
                              "DataFrame.assign aligns by label, so values land on the wrong rows / become NaN")
             d.cols[k] = Vec(bcast(v, d.n), aligned=True)
         return GA(obj.cls, d, d.n, dict(obj.meta))
@@ -853,6 +858,9 @@ def store_subscript(it, obj, k, v, aug=False):
         if isinstance(v, Vec) and v.fresh and obj.index != "range":
             raise Raised("IndexMisalignment", f"a Series built by pd.Series(<array>) (fresh 0..n-1 index) is stored into column `{col}` of a table whose "
                          "index is not known to be 0..n-1: pandas aligns by label, so values land on the wrong rows / become NaN")
+        if isinstance(v, Vec) and isinstance(v.aligned, str) and obj.index == "range" and not v.fresh:
+            raise Raised("IndexMisalignment", f"a Series carrying another table's row labels (index kind: {v.aligned}) is stored into column `{col}` of a table that was renumbered 0..n-1: "
+                         "pandas aligns by label, so values land on the wrong rows / become NaN")
         if mask is None:
             obj.cols[col] = Vec(bcast(v, n), aligned=True)
         elif isinstance(mask, Vec):
